@@ -112,6 +112,11 @@ def gen_C18(g, tier):
         cs.append(Case('lcg.seq %d %d' % (seed, g.randint(1, 50)), 'cmp', 'lcg'))
         sd = g.choice([0, seed, 1, -1, -seed])
         cs.append(Case('bm.seed %d' % sd, 'cmp', 'ctor-seed', check=seed_check(sd)))
+    # seeds at the boundaries of the integer types: only 0 means "do not seed"
+    for sd in ([2 ** 32, -2 ** 32, 3 * 2 ** 32, 2 ** 62, -2 ** 63, 2 ** 63 - 1, 2 ** 31, -2 ** 31, 2 ** 31 - 1, 2 ** 16, 2 ** 48, 2 ** 32 + 13, 256, -256]
+               + [g.randint(1, 2 ** 31) * 2 ** 32 * g.choice([1, -1]) for _ in range(6)] + [g.choice([1, -1]) * 2 ** g.randint(1, 62) for _ in range(6)]):
+        cs.append(Case('bm.seed %d' % sd, 'cmp', 'ctor-seed-boundary', check=seed_check(sd)))
+        cs.append(Case('bm.real %d 5' % sd, 'cmp', 'seeded-stream-boundary'))
     for _ in range(n):
         npairs = g.choice([1, 2, 3, 5, 8, 20, 60, 200])
         us = stream(g, npairs)
